@@ -4,7 +4,7 @@ from __future__ import annotations
 
 import ast
 
-from engine.core import AnalysisError, Repo, kwarg_of, norm, walk_no_nested
+from engine.core import sha, AnalysisError, Repo, kwarg_of, norm, walk_no_nested
 from engine.fold import DimVec, Tables
 from engine.mutate import Mutant
 from engine.report import Result
@@ -50,6 +50,7 @@ def check(repo: Repo) -> Result:
     homomorphism(repo, res)
     ratio_direction(repo, res)
     filed_scales(repo, res)
+    ctor_provenance(repo, res)
 
     from rules import c11
     from rules.common import share
@@ -386,6 +387,66 @@ def homomorphism(repo, res):
     res.check(set(rets) <= {f"(float({e}), sympy_one)", "(1.0, sympy_one)"} and f"(float({e}), sympy_one)" in rets, "walk:Number", fn.where(nu), "Number arm: scale is the number itself, dimensionless", found=rets, rid=r3)
 
 
+def ctor_provenance(repo, res):
+    """C02-R7: what Unit.__new__ stores as scale, offset and dimension comes from exactly two sources: the caller's own
+    explicit arguments, or the walk of the expression through the *target* registry's table
+    (_get_unit_data_from_expr(expr, registry.lut)).  From a unit / quantity passed as `unit_expr` only the expression
+    (and a quantity's scalar value / shape) is taken: its scale, offset and dimensions were derived in its own registry
+    and need not be what the target registry's definitions imply (two registries defining code_length differently; a
+    unit created before registry.modify)."""
+    r7 = res.rule("C02-R7", "Unit.__new__: scale, offset and dimensions come from the explicit arguments or from the expression walked through the target registry's table - never from attributes of a unit object passed in", floor=6)
+    uo = repo.mod(UO)
+    fn = uo.func("Unit.__new__")
+    res.fn(fn)
+    src = fn.params[1]  # the unit_expr parameter
+    allowed = {"is_Unit", "expr", "units", "value", "shape", "decode"}
+    # (a) attribute reads on the incoming object
+    reads = {}
+    for n in walk_no_nested(fn.node):
+        if isinstance(n, ast.Attribute) and isinstance(n.ctx, ast.Load):
+            base = n
+            chain = []
+            while isinstance(base, ast.Attribute):
+                chain.append(base.attr)
+                base = base.value
+            if isinstance(base, ast.Name) and base.id == src:
+                reads.setdefault(chain[-1], n)
+        if isinstance(n, ast.Call) and norm(n.func) == "getattr" and n.args and norm(n.args[0]) == src and len(n.args) > 1 and isinstance(n.args[1], ast.Constant):
+            reads.setdefault(str(n.args[1].value), n)
+    for attr, node in sorted(reads.items()):
+        res.check(attr in allowed, f"__new__:reads:{attr}", fn.where(node), f"Unit.__new__ reads `.{attr}` of the object passed as unit expression: only its expression (and a quantity's scalar value) may be taken over, scale / offset / dimensions must be re-derived in the target registry (Unit(u, registry=R) with R defining a symbol of u differently)", sorted(allowed), attr, rid=r7)
+    # (b) every definition of the stored values
+    stored = {}
+    for n in walk_no_nested(fn.node):
+        if isinstance(n, ast.Assign) and len(n.targets) == 1 and isinstance(n.targets[0], ast.Attribute) and n.targets[0].attr in ("base_value", "base_offset", "dimensions") and isinstance(n.value, ast.Name):
+            stored[n.targets[0].attr] = n.value.id
+    if set(stored) != {"base_value", "base_offset", "dimensions"}:
+        raise AnalysisError(f"{fn.where()}: the stores obj.base_value / base_offset / dimensions = <local> were not found")
+    walk_names = set()
+    for n in walk_no_nested(fn.node):
+        if isinstance(n, ast.Assign) and isinstance(n.value, ast.Call) and norm(n.value.func) == "_get_unit_data_from_expr" and isinstance(n.targets[0], ast.Name):
+            a = n.value.args
+            res.check(len(a) == 2 and norm(a[0]) == src and norm(a[1]) in ("registry.lut",), "__new__:walk-arguments", fn.where(n), "the expression is walked through the target registry's table", f"_get_unit_data_from_expr({src}, registry.lut)", norm(n.value), rid=r7)
+            walk_names.add(n.targets[0].id)
+    if not walk_names:
+        raise AnalysisError(f"{fn.where()}: call of _get_unit_data_from_expr not found in Unit.__new__")
+    for attr, local in sorted(stored.items()):
+        for n in walk_no_nested(fn.node):
+            if not (isinstance(n, ast.Assign) and any(isinstance(t, ast.Name) and t.id == local for t in n.targets)):
+                continue
+            v = n.value
+            ok = False
+            if isinstance(v, ast.Subscript) and isinstance(v.value, ast.Name) and v.value.id in walk_names:
+                ok = True  # unit_data[k]
+            elif isinstance(v, ast.Constant) and isinstance(v.value, (int, float)):
+                ok = True
+            elif isinstance(v, ast.Name) and (v.id == local or uo.qual(v) is not None or v.id in ("dimensionless",)):
+                ok = True
+            elif isinstance(v, ast.Call) and norm(v.func) in ("float", "_validate_dimensions", "sympify") and v.args and norm(v.args[0]) == local:
+                ok = True  # normalisation of the caller's own argument
+            res.check(ok, f"__new__:def:{attr}:{sha(norm(v))[:6]}", fn.where(n), f"Unit.__new__ computes the stored {attr} from something other than the caller's argument or the expression walk in the target registry", f"{local} = unit_data[k] | float({local}) | a constant", norm(n), rid=r7)
+
+
 def ratio_direction(repo, res):
     r4 = res.rule("C02-R4", "_get_conversion_factor: ratio = old scale / new scale; offset term = ratio*old_offset - new_offset", floor=3)
     mod = repo.mod(UO)
@@ -459,6 +520,8 @@ def ratio_direction(repo, res):
 
 
 MUTANTS = [
+    Mutant("ctor-copies-foreign-scale", UO, "Unit.__new__", "            # grab the unit object's sympy expression.\n            unit_expr = unit_expr.expr\n", "            if base_value is None:\n                base_value = unit_expr.base_value\n                dimensions = unit_expr.dimensions\n            unit_expr = unit_expr.expr\n", ("C02-R7",)),
+    Mutant("ctor-walks-default-table", UO, "Unit.__new__", "_get_unit_data_from_expr(unit_expr, registry.lut)", "_get_unit_data_from_expr(unit_expr, default_unit_registry.lut)", ("C02-R7",)),
     Mutant("row-digit-slip", LUT, None, '("yd", (0.9144,', '("yd", (0.9141,', ("C02-R1",)),
     Mutant("row-dimension", LUT, None, '("Ba", (0.1, dimensions.pressure', '("Ba", (0.1, dimensions.force', ("C02-R1",)),
     Mutant("row-offset", LUT, None, "-459.67", "-459.76", ("C02-R1",)),
